@@ -363,6 +363,14 @@ def main(argv):
                 cs = [x for x in cases + conc if x["id"] == r["id"]][0]
                 c.report("panic:" + sig(cs), "real gtxbuf code panicked (%s driver): %s" % (grp, r["panic"]),
                          {"cases": [cs], "observed": r})
+    aliased = [(grp, r) for grp in ("direct", "api") for r in res[grp] or [] if r.get("alias")]
+    if aliased:
+        grp, r = aliased[0]
+        cs = [x for x in cases if x["id"] == r["id"]][0]
+        c.report("returned-list-aliases-pending", "a list returned by the real gtxbuf code (%s driver) did not stay the caller's own value (%s: step:changed "
+                 "= it changed under a later request, step:leaked = overwriting it changed the pending list): the pending list escaped the "
+                 "serializing goroutine, so it need not apply cleanly any more" % (grp, r["alias"]), {"cases": [cs], "observed": r, "aliased_cases": len(aliased)})
+    c.coverage["returned_lists_checked_for_aliasing"] = sum(len(r.get("steps", [])) for grp in ("direct", "api") for r in res[grp] or [])
 
     # 4. model + monitors on the same cases inside coqc
     bad = runner.evaluate(cases, res, "cases")
